@@ -29,6 +29,7 @@ From WG Require Import BV.Access.
 From WG Require Import BV.MaskedIter.
 From WG Require Import Algo.PageRankQ.
 From WG Require Import Algo.PageRankStatements.
+From WG Require Import Links.LoadLinkStatements.
 
 Extraction Language OCaml.
 
@@ -307,4 +308,6 @@ Extraction "model.ml"
   Qmult
   Qdiv
   sumn
+  load_seq
+  load_ra
 .
